@@ -334,10 +334,10 @@ impl<'de> ::serde::de::Deserialize<'de> for FileLines {
     where
         D: ::serde::de::Deserializer<'de>,
     {
-        panic!(
+        Err(<D::Error as ::serde::de::Error>::custom(
             "FileLines cannot be deserialized from a project rustfmt.toml file: please \
-             specify it via the `--file-lines` option instead"
-        );
+             specify it via the `--file-lines` option instead",
+        ))
     }
 }
 
